@@ -187,11 +187,19 @@ def run_kani(crate, prefix, harnesses, harness_timeout=600, tag="run"):
     if not harnesses:
         return {}, "", 0.0, ""
     full = [prefix + "::" + h for h in harnesses]
-    jobs = max(1, min(NCPU, len(full)))
-    cmd = _kani_cmd(crate, full, harness_timeout, jobs, False)
     logp = os.path.join(WORK, "logs", "kani-%s-%s.log" % (crate, tag))
-    waves = (len(full) + jobs - 1) // jobs
-    rc, text, secs = sh(cmd, timeout=300 + waves * (harness_timeout + 30), out_path=logp)
+    # the Kani driver keeps the output of every harness of an invocation in memory (192 deblock geometry harnesses took 56 GB and were
+    # OOM-killed): large lists are run in chunks
+    CHUNK = int(os.environ.get("VERIF_KANI_CHUNK", "48"))
+    text, secs, cmd = "", 0.0, None
+    for c0 in range(0, len(full), CHUNK):
+        part = full[c0:c0 + CHUNK]
+        jobs = max(1, min(NCPU, len(part)))
+        cmd = _kani_cmd(crate, part, harness_timeout, jobs, False)
+        waves = (len(part) + jobs - 1) // jobs
+        rc, t1, s1 = sh(cmd, timeout=300 + waves * (harness_timeout + 30), out_path=logp if c0 == 0 else logp + ".%d" % (c0 // CHUNK))
+        text += t1 + "\n"
+        secs += s1
     res = parse_kani_log(text, full)
     failed = [f for f in full if res[f].status == "failed"]
     if failed:
